@@ -317,8 +317,20 @@ def m_str_contains_char(ex, st, fr, callee, a, depth):
     return z3.Or(*[x == p for x in s.items]) if s.items else z3.BoolVal(False)
 
 
-def m_str_matches_count(ex, st, fr, callee, a, depth):
-    raise Inconclusive('str::matches')
+def m_str_matches(ex, st, fr, callee, a, depth):
+    s = as_str(st, a[0])
+    pat = deref(st, a[1])
+    if not is_z3(pat):
+        raise Inconclusive('str::matches with a non-char pattern')
+    return IterV('matches', items=tuple(z3.If(x == pat, BV(1, 64), BV(0, 64)) for x in s.items))
+
+
+def m_matches_count(ex, st, fr, callee, a, depth):
+    it = deref(st, a[0])
+    t = BV(0, 64)
+    for x in it.items:
+        t = t + x
+    return z3.simplify(t)
 
 
 def m_str_eq(ex, st, fr, callee, a, depth):
@@ -685,6 +697,7 @@ BASE_MODELS = [
     (P(r'^core::str::<impl str>::chars$'), m_str_chars),
     (P(r'^core::str::<impl str>::contains::<char>$'), m_str_contains_char),
     (P(r'^str::<impl str>::replace::<'), m_str_replace),
+    (P(r'^core::str::<impl str>::matches::<char>$'), m_str_matches),
     (P(r'^<String as PartialEq<&str>>::eq$|^<String as PartialEq<str>>::eq$|^<String as PartialEq>::eq$|^<str as PartialEq>::eq$|^<&str as PartialEq<String>>::eq$|^<&str as PartialEq>::eq$'), m_str_eq),
     (P(r'^<String as PartialEq<&str>>::ne$|^<String as PartialEq>::ne$'), m_str_ne),
     (P(r'^String::new$'), m_string_new),
@@ -698,13 +711,14 @@ BASE_MODELS = [
     (P(r'^Vec::<.*>::is_empty$|^core::slice::<impl \[.*\]>::is_empty$|^String::is_empty$|^core::str::<impl str>::is_empty$'), m_is_empty),
     (P(r'^Vec::<.*>::new$'), m_vec_new),
     (P(r'^<Vec<.*> as Index<usize>>::index$|^<Vec<.*> as std::ops::Index<usize>>::index$|^<Vec<.*> as IndexMut<usize>>::index_mut$'), m_index),
-    (P(r'^std::slice::<impl \[.*\]>::join::<&str>$|^std::slice::<impl \[String\]>::join'), m_vec_join),
+    (P(r'^(std::)?slice::<impl \[String\]>::join::<&str>$'), m_vec_join),
     (P(r' as IntoIterator>::into_iter$'), m_into_iter),
     (P(r'^<(std::ops::Range<usize>|std::slice::Iter<.*>|Chars<.*>) as Iterator>::next$'), m_iter_next),
     (P(r' as Iterator>::map::<'), m_map),
     (P(r' as Itertools>::collect_vec$'), m_collect_vec),
     (P(r' as Itertools>::join$'), m_join),
     (P(r' as Iterator>::any::<'), m_any),
+    (P(r"^<std::str::Matches<'_, char> as Iterator>::count$"), m_matches_count),
     (P(r' as Iterator>::count$'), m_count),
     (P(r' as Iterator>::sum::<usize>$'), m_sum),
     (P(r'^CharRange::closed$'), m_cr_closed),
